@@ -564,6 +564,7 @@ func runHistory(c kv) string {
 	}
 	e := evalfilter.New(src)
 	tl := &traceLog{}
+	var persist *hK5 // the one record of `pexec` steps
 	ol := &oracleLog{facts: map[string]bool{}}
 	useOracle := c["noora"] == ""
 	if useOracle {
@@ -635,13 +636,22 @@ func runHistory(c kv) string {
 				emit("P|ok|" + encProgram(u.VerifConstants(), u.VerifUnoptimized(), u.VerifCompiledFunctions()) +
 					"|" + encProgram(m.VerifConstants(), m.VerifBytecode(), m.VerifFunctions()))
 			}
-		case "run", "exec":
+		case "run", "exec", "pexec":
 			idx := 0
 			if len(p) > 1 {
 				idx, _ = strconv.Atoi(p[1])
 			}
 			var obj interface{}
-			if idx < len(objs) {
+			if p[0] == "pexec" {
+				// pexec:<hex name>,<n>: the host keeps ONE record, changes it in place and passes the same pointer again
+				kv := strings.SplitN(p[1], ",", 2)
+				if persist == nil {
+					persist = &hK5{}
+				}
+				n, _ := strconv.Atoi(kv[1])
+				persist.ID, persist.PubInner, persist.Name = n, PubInner{99, 2}, unhex(kv[0])
+				obj = persist
+			} else if idx < len(objs) {
 				obj = buildHost(objs[idx])
 			}
 			tl.calls, tl.names, tl.kept = nil, nil, nil
